@@ -26,8 +26,10 @@ def _worker(a):
     s = proto.Session(b, cfg)
     views = []
     try:
-        g = gen.RandomHistory(rng, s, ids, weights={"stray": 0, "reannounce": 6, "disconnect": 6, "registered": 3, "reply": 20, "password": 12, "stats": 3},
-                              reply_kinds=["OK", "OKacct", "NO", "AGAIN", "MORE", "junk"])
+        alt = a.get("alt_services") or []
+        g = gen.RandomHistory(rng, s, ids, weights={"stray": 0, "reannounce": 6, "disconnect": 6, "registered": 3, "reply": 20, "password": 12, "stats": 3,
+                                                     "reload": 3 if alt else 0},
+                              reply_kinds=["OK", "OKacct", "NO", "AGAIN", "MORE", "junk"], alt_services=alt)
         done = 0
         tries = 0
         while done < n_events and tries < n_events * 20 and not s.dead:
@@ -52,7 +54,8 @@ def _worker(a):
         res["inconc"].append("daemon unclean in base run: %s" % (s.res.describe(),))
         return res
     base_events = [e for e, _ in base.steps]
-    svcs = [n for n, p in cfg.services]
+    svcs = sorted(set([n for n, p in cfg.services] + [n for tab in (a.get("alt_services") or []) for n, p in tab]))
+    res["stats"]["reloads_in_base_histories"] = sum(1 for e in base_events if e["t"] == "reload")
     for si in range(nsets):
         # choose positions and strays
         inserts = {}
@@ -147,6 +150,55 @@ def compare_run(b, cfg, base, base_events, inserts, stats, views):
     return None
 
 
+def _slot_worker(a):
+    """Directed: a service is removed by a reload while a client still awaits it, a later reload adds another service
+    (which may land in the freed slot); a reply from the newcomer bearing the waiting client's tag is not owed."""
+    b, seed = a["build"], a["seed"]
+    rng = random.Random(seed)
+    names = rng.sample(["login.svc", "drone.svc", "ipr.svc", "combo.svc", "Alpha.Net", "zeta.example.org"], 4)
+    A, keep, B, C = names
+    pA = rng.choice(["login", "login-ipr", "combined"])
+    t0 = [(A, pA), (keep, "dronecheck")]
+    t1 = [(keep, "dronecheck")]
+    t2 = [(keep, "dronecheck"), (B, rng.choice(proto.PROTOS))] + ([(C, "login")] if rng.random() < 0.5 else [])
+    cfg = proto.Config(t0, timeout=3600)
+    cid = rng.choice([3, 5, 9])
+    pre = [{"t": "announce", "id": cid, "ip": "1.2.3.4", "port": 1000}, {"t": "password", "id": cid, "text": "+x alice pw"},
+           {"t": "nick", "id": cid, "name": "nick"}]
+    if rng.random() < 0.5:
+        pre += [{"t": "host", "id": cid, "name": "h.example"}, {"t": "ident", "id": cid, "name": "id"}]
+    mid = [{"t": "reload", "services": t1}, {"t": "reload", "services": t2}]
+    post = [{"t": "userinfo", "id": cid, "user": "u", "real": "r"}, {"t": "host", "id": cid, "name": "h2.example"}, {"t": "ident", "id": cid, "name": "id"},
+            {"t": "stats"}, {"t": "hurry", "id": cid}, {"t": "stats"}]
+    events = pre + mid + post
+    res = {"viol": [], "stats": {"slot_reuse_scenarios": 1, "stray_lines_inserted": 0, "stray_kinds": {}, "pairs_compared": 0, "steps_compared": 0,
+                                 "strays_hitting_live_id": 0, "strays_stale_serial": 0, "strays_malformed_tag": 0, "strays_wrong_service": 0},
+           "nontrivial": True, "hash": vcommon.h(["slot", seed]), "inconc": []}
+    base = prun.replay_events(b, cfg, events)
+    if base.result and (base.result["exit"] != 0 or base.result["sanitizer"]):
+        res["inconc"].append("daemon unclean in base run: %s" % (base.result,))
+        return res
+    tag = None
+    for ev, out in base.steps:
+        for ln in out:
+            c = proto.classify(ln)
+            if c and c["kind"] == "xquery":
+                tag = c["tag"]
+    if tag is None:
+        res["inconc"].append("slot scenario sent no query")
+        return res
+    views = [gen.View({cid: {"tag": tag, "awaiting": {A}}}, [], [])] * (len(events) + 1)
+    for svc in [B] + ([C] if len(t2) > 2 else []):
+        for text in ("OK mallory:666", "NO go away", "MORE prove it", "OK"):
+            st = {"t": "reply", "svc": svc, "tag": tag, "text": text}
+            bad = compare_run(b, cfg, base, events, {len(pre) + 2: st}, res["stats"], views)
+            if bad:
+                res["viol"].append(("C04", bad[0], bad[0] + ":service-added-by-reload", "%s\nstray line %s inserted after the reloads %s -> %s -> %s\n%s" % (
+                    bad[1], proto.render(st), t0, t1, t2, bad[2]), {"config": cfg.to_json(), "events": events, "insert_at": len(pre) + 2, "stray": st}))
+                return res
+    return res
+
+
 def run(chk, tier, scale=1.0):
     b = prun.build_daemon("c04-" + tier)
     n = int((320 if tier == "quick" else 5000) * scale)
@@ -156,9 +208,22 @@ def run(chk, tier, scale=1.0):
         cfg = pcommon.random_config(rng, want_class=(rng.random() < 0.25))
         if not cfg.services:
             cfg.services = [("login.svc", "login")]
+        alt = None
+        if i % 3 == 0:
+            # histories that also reload the service table (remove a service that is still awaited, add another, change protocols)
+            names = [n for n, p in cfg.services]
+            extra = [n for n in ("login.svc", "drone.svc", "ipr.svc", "combo.svc", "Alpha.Net", "zeta.example.org") if n not in names]
+            alt = [list(cfg.services)]
+            for _ in range(3):
+                tab = [x for x in cfg.services if rng.random() < 0.6]
+                for n in rng.sample(extra, min(len(extra), rng.choice([0, 1, 2]))):
+                    tab.append((n, rng.choice(proto.PROTOS)))
+                alt.append(tab)
         jobs.append(dict(build=b, config=cfg.to_json(), seed=rng.randrange(1 << 30), n=90, ids=[3, 4, 5][:rng.choice([2, 3])],
-                         nsets=4 if tier == "quick" else 8, kper=8))
-    for r in vcommon.pmap(_worker, jobs, chunksize=2):
+                         nsets=4 if tier == "quick" else 8, kper=8, alt_services=alt))
+    results = vcommon.pmap(_worker, jobs, chunksize=2)
+    results += vcommon.pmap(_slot_worker, [dict(build=b, seed=chk.seed * 1000 + k) for k in range(int((24 if tier == "quick" else 400) * scale))])
+    for r in results:
         chk.add_case(r["hash"], r["nontrivial"])
         kinds = r["stats"].pop("stray_kinds")
         chk.merge_counts(r["stats"])
@@ -170,7 +235,7 @@ def run(chk, tier, scale=1.0):
             chk.violation(Violation(p, rule, sig, text, wit))
     chk.rule = ("differential: a random multi-client history with heavy id reuse (2-3 ids) is run once, then again with 8 replies / unlinked notices inserted that are "
                 "NOT owed at their position (stale serial of a departed instance of a reused id, departed client, live tag with an unknown / unconfigured / already answered / "
-                "differently-cased service, malformed tags %x %x_ zz_1 %x_1x %x_1_2 ...), every reply kind; the step of the inserted line must produce no output and every "
+                "differently-cased service, a service that a SIGUSR1 reload added after the query went to another one, malformed tags %x %x_ zz_1 %x_1x %x_1_2 ...), every reply kind; the step of the inserted line must produce no output and every "
                 "later step exactly the same output (statistics lines included, class timing lines excluded); on a difference the run is bisected to one stray; "
                 "distinct = base history; non-trivial = at least one stray named a live id")
     chk.require("stray_lines_inserted", 5000 * min(1.0, scale))
